@@ -20,6 +20,14 @@ def WF (c : Clock ℝ) : Prop := ClockTime.WF c.state.time
 def SteadySpeed (c : Clock ℝ) (v : ℝ) : Prop :=
   c.speed.stagnant = true ∧ c.speed.raw.asTicksPerSecond = v
 
+/-- the loop the code used to run, `while *tick_timer >= 1.0 { *tick_timer -= 1.0; *ticks += 1; }`
+    (`none` = fuel exhausted: over the floats it never ends once the timer is 2^53 or more).  Kept as
+    the specification of `tickStep`, the closed form the repaired code computes. -/
+def tickLoop {α : Type} [Sub α] [LE α] [DecidableLE α] [OfScientific α] : Nat → Nat → α → Option (Nat × α)
+  | 0, _, _ => none
+  | fuel + 1, ticks, timer =>
+    if (1.0 : α) ≤ timer then tickLoop fuel (ticks + 1) (timer - (1.0 : α)) else some (ticks, timer)
+
 /-- closed form of the tick loop: with enough fuel it ends with `⌊timer⌋` more ticks and the
     fractional part of the timer; any two sufficient fuels agree. -/
 theorem tickLoop_spec : ∀ (fuel n : ℕ) (t : ℝ), 0 ≤ t → ⌊t⌋₊ < fuel →
@@ -42,6 +50,48 @@ theorem tickLoop_spec : ∀ (fuel n : ℕ) (t : ℝ), 0 ≤ t → ⌊t⌋₊ < f
       have h0 : ⌊t⌋₊ = 0 := Nat.floor_eq_zero.mpr hlt
       rw [h0, Int.fract_eq_self.mpr ⟨ht, hlt⟩]; simp
 
+/-- what the repaired code computes, over ℝ: `⌊timer⌋` more ticks and the fractional part when the
+    timer reached 1, nothing otherwise -/
+theorem tickStep_real (n : ℕ) (t : ℝ) :
+    tickStep n t = if 1 ≤ t then (n + ⌊t⌋₊, Int.fract t) else (n, t) := by
+  unfold tickStep
+  simp only [lit_1, lit_0, floor_real, toNatSat_real, isFinite_real, satU64_real, if_true]
+  by_cases h1 : (1 : ℝ) ≤ t
+  · simp only [h1, if_true]
+    have h0 : (0 : ℤ) ≤ ⌊t⌋ := Int.floor_nonneg.mpr (by linarith)
+    have e : ⌊((⌊t⌋ : ℤ) : ℝ)⌋₊ = ⌊t⌋₊ := by
+      rw [← Int.floor_toNat, ← Int.floor_toNat, Int.floor_intCast]
+    rw [e]; rfl
+  · simp only [h1, if_false]
+
+/-- the same for a non-negative timer, without the case split -/
+theorem tickStep_nonneg (n : ℕ) (t : ℝ) (ht : 0 ≤ t) : tickStep n t = (n + ⌊t⌋₊, Int.fract t) := by
+  rw [tickStep_real]
+  by_cases h1 : (1 : ℝ) ≤ t
+  · simp [h1]
+  · have hlt : t < 1 := not_le.mp h1
+    simp [h1, Nat.floor_eq_zero.mpr hlt, Int.fract_eq_self.mpr ⟨ht, hlt⟩]
+
+/-- **closed form = loop wherever the loop terminates** (every timer, negative ones included, every
+    fuel): if the old tick loop returns, the repaired code returns the same ticks and timer. -/
+theorem tickStep_eq_loop : ∀ (fuel n : ℕ) (t : ℝ) (r : ℕ × ℝ), tickLoop fuel n t = some r → tickStep n t = r := by
+  intro fuel
+  induction fuel with
+  | zero => intro n t r h; simp [tickLoop] at h
+  | succ fuel ih =>
+    intro n t r h
+    unfold tickLoop at h
+    simp only [lit_1] at h
+    by_cases h1 : (1 : ℝ) ≤ t
+    · simp only [h1, if_true] at h
+      have hrec := ih (n + 1) (t - 1) r h
+      rw [← hrec, tickStep_nonneg n t (by linarith), tickStep_nonneg (n + 1) (t - 1) (by linarith),
+        Nat.floor_sub_one, Int.fract_sub_one]
+      have hfl : 1 ≤ ⌊t⌋₊ := Nat.le_floor (by simpa using h1)
+      congr 1; omega
+    · simp only [h1, if_false, Option.some.injEq] at h
+      rw [tickStep_real]; simp [h1, h]
+
 /-- a well-formed clock time is determined by the real number it denotes -/
 theorem time_eq_of_val (t : ClockTime ℝ) (h : ClockTime.WF t) :
     t = ⟨⌊ClockTime.val t⌋₊, Int.fract (ClockTime.val t)⟩ := by
@@ -61,27 +111,23 @@ theorem steady_update (c : Clock ℝ) (v dt : ℝ) (info : Info ℝ) (h : Steady
   rw [Parameter.update_stagnant _ _ _ _ h.1]
   exact ⟨h.1, rfl⟩
 
-/-- one update of a ticking clock: it advances by (new speed) × dt, for every sufficient fuel -/
-theorem update_ticking (fuel : ℕ) (c : Clock ℝ) (dt : ℝ) (info : Info ℝ)
+/-- one update of a ticking clock: it advances by (new speed) × dt — whatever the speed and the step
+    (no fuel: the tick count is computed, not looped) -/
+theorem update_ticking (c : Clock ℝ) (dt : ℝ) (info : Info ℝ)
     (htick : c.ticking = true) (hwf : WF c) (hdt : 0 ≤ dt)
-    (hv : 0 ≤ (c.speed.update twCs dt info).1.raw.asTicksPerSecond)
-    (hfuel : (c.speed.update twCs dt info).1.raw.asTicksPerSecond * dt + 1 ≤ (fuel : ℝ)) :
-    ∃ c' r, c.update fuel dt info = some (c', r)
-      ∧ val c' = val c + (c.speed.update twCs dt info).1.raw.asTicksPerSecond * dt
-      ∧ WF c' ∧ c'.ticking = true ∧ c'.speed = (c.speed.update twCs dt info).1
-      ∧ c'.cmds = c.cmds ∧ c'.shared = c.shared := by
+    (hv : 0 ≤ (c.speed.update twCs dt info).1.raw.asTicksPerSecond) :
+    val (c.update dt info).1 = val c + (c.speed.update twCs dt info).1.raw.asTicksPerSecond * dt
+      ∧ WF (c.update dt info).1 ∧ (c.update dt info).1.ticking = true
+      ∧ (c.update dt info).1.speed = (c.speed.update twCs dt info).1
+      ∧ (c.update dt info).1.cmds = c.cmds ∧ (c.update dt info).1.shared = c.shared := by
   set v := (c.speed.update twCs dt info).1.raw.asTicksPerSecond with hvdef
   have hvd : 0 ≤ v * dt := mul_nonneg hv hdt
-  -- the timer before the loop
+  -- the timer before the tick count
   obtain ⟨t0, f0, hstate, hf0, hf1⟩ : ∃ (t0 : ℕ) (f0 : ℝ), c.state.time = ⟨t0, f0⟩ ∧ 0 ≤ f0 ∧ f0 < 1 :=
     ⟨c.state.time.ticks, c.state.time.fraction, rfl, hwf.1, hwf.2⟩
   have hval : val c = (t0 : ℝ) + f0 := by unfold val; rw [hstate]; rfl
   have htimer : 0 ≤ f0 + v * dt := by linarith
-  have hfl : ⌊f0 + v * dt⌋₊ < fuel := by
-    have : (⌊f0 + v * dt⌋₊ : ℝ) ≤ f0 + v * dt := Nat.floor_le htimer
-    have : (⌊f0 + v * dt⌋₊ : ℝ) < (fuel : ℝ) := by linarith
-    exact_mod_cast this
-  have hloop := tickLoop_spec fuel t0 (f0 + v * dt) htimer hfl
+  have hloop := tickStep_nonneg t0 (f0 + v * dt) htimer
   have hfloor : ((⌊f0 + v * dt⌋₊ : ℕ) : ℝ) + Int.fract (f0 + v * dt) = f0 + v * dt := by
     have h1 := Int.floor_add_fract (f0 + v * dt)
     have h2 : ((⌊f0 + v * dt⌋₊ : ℕ) : ℝ) = ((⌊f0 + v * dt⌋ : ℤ) : ℝ) := by
@@ -100,7 +146,7 @@ theorem update_ticking (fuel : ℕ) (c : Clock ℝ) (dt : ℝ) (info : Info ℝ)
     obtain ⟨rfl, rfl⟩ := hstate
     simp only [lit_0] at hloop ⊢
     rw [← hvdef, hloop]
-    refine ⟨_, _, rfl, ?_, ?_, rfl, rfl, rfl, rfl⟩
+    refine ⟨?_, ?_, trivial, trivial, trivial, trivial⟩
     · unfold val; rw [hs]; simp only [ClockState.time, ClockTime.val, lit_0]
       push_cast; linarith
     · unfold WF; simp only [ClockState.time, ClockTime.WF]
@@ -111,93 +157,78 @@ theorem update_ticking (fuel : ℕ) (c : Clock ℝ) (dt : ℝ) (info : Info ℝ)
     obtain ⟨rfl, rfl⟩ := hstate
     simp only
     rw [← hvdef, hloop]
-    refine ⟨_, _, rfl, ?_, ?_, rfl, rfl, rfl, rfl⟩
+    refine ⟨?_, ?_, trivial, trivial, trivial, trivial⟩
     · unfold val; rw [hs]; simp only [ClockState.time, ClockTime.val]
       push_cast; linarith
     · unfold WF; simp only [ClockState.time, ClockTime.WF]
       exact ⟨Int.fract_nonneg _, Int.fract_lt_one _⟩
 
 /-- one update of a clock that is not ticking: only the speed parameter moves -/
-theorem update_not_ticking (fuel : ℕ) (c : Clock ℝ) (dt : ℝ) (info : Info ℝ) (h : c.ticking = false) :
-    c.update fuel dt info = some ({ c with speed := (c.speed.update twCs dt info).1 }, none) := by
+theorem update_not_ticking (c : Clock ℝ) (dt : ℝ) (info : Info ℝ) (h : c.ticking = false) :
+    c.update dt info = ({ c with speed := (c.speed.update twCs dt info).1 }, none) := by
   unfold update; simp [h]
 
 /-- whatever the clock does, one update advances its speed parameter exactly once, with the same
     `dt` and `Info`, and touches neither the ticking flag, the command slots nor the shared words -/
-theorem update_frame (fuel : ℕ) (c c' : Clock ℝ) (dt : ℝ) (info : Info ℝ) (r : Option ℕ)
-    (h : c.update fuel dt info = some (c', r)) :
-    c'.speed = (c.speed.update twCs dt info).1 ∧ c'.ticking = c.ticking ∧ c'.cmds = c.cmds
-      ∧ c'.shared = c.shared := by
-  unfold update at h
+theorem update_frame (c : Clock ℝ) (dt : ℝ) (info : Info ℝ) :
+    (c.update dt info).1.speed = (c.speed.update twCs dt info).1 ∧ (c.update dt info).1.ticking = c.ticking
+      ∧ (c.update dt info).1.cmds = c.cmds ∧ (c.update dt info).1.shared = c.shared := by
+  unfold update
   by_cases ht : c.ticking = true
-  · simp only [ht, Bool.not_true, Bool.false_eq_true, if_false] at h
-    split at h
-    · exact absurd h (by simp)
-    · simp only [Option.some.injEq, Prod.mk.injEq] at h
-      obtain ⟨rfl, _⟩ := h
-      exact ⟨rfl, ht.symm ▸ rfl, rfl, rfl⟩
+  · simp [ht]
   · have hf : c.ticking = false := by simpa using ht
-    simp only [hf, Bool.not_false, if_true, Option.some.injEq, Prod.mk.injEq] at h
-    obtain ⟨rfl, _⟩ := h
-    exact ⟨rfl, hf.symm, rfl, rfl⟩
+    simp [hf]
 
 /-- a run of updates at a steady speed `v ≥ 0`: the clock advances by `v × Σ dt`, whatever the
-    partition, for every fuel that covers the largest single step -/
-theorem run_steady (fuel : ℕ) (info : Info ℝ) (v : ℝ) (hv : 0 ≤ v) :
+    partition and however large the steps -/
+theorem run_steady (info : Info ℝ) (v : ℝ) (hv : 0 ≤ v) :
     ∀ (dts : List ℝ) (c : Clock ℝ), c.ticking = true → WF c → SteadySpeed c v →
-      (∀ dt ∈ dts, 0 ≤ dt) → (∀ dt ∈ dts, v * dt + 1 ≤ (fuel : ℝ)) →
-      ∃ c', c.run fuel info dts = some c' ∧ val c' = val c + v * dts.sum ∧ WF c'
-        ∧ c'.ticking = true ∧ SteadySpeed c' v := by
+      (∀ dt ∈ dts, 0 ≤ dt) →
+      val (c.run info dts) = val c + v * dts.sum ∧ WF (c.run info dts)
+        ∧ (c.run info dts).ticking = true ∧ SteadySpeed (c.run info dts) v := by
   intro dts
   induction dts with
-  | nil => intro c ht hwf hs _ _; exact ⟨c, rfl, by simp, hwf, ht, hs⟩
+  | nil => intro c ht hwf hs _; exact ⟨by simp [run], hwf, ht, hs⟩
   | cons dt rest ih =>
-    intro c ht hwf hs hnn hfuel
+    intro c ht hwf hs hnn
     have hsu := steady_update c v dt info hs
     have hveq : (c.speed.update twCs dt info).1.raw.asTicksPerSecond = v := by rw [hsu.2]; exact hs.2
-    obtain ⟨c1, r, hu, hval, hwf1, ht1, hsp, _, _⟩ :=
-      update_ticking fuel c dt info ht hwf (hnn dt (by simp)) (by rw [hveq]; exact hv)
-        (by rw [hveq]; exact hfuel dt (by simp))
-    have hs1 : SteadySpeed c1 v := by
+    obtain ⟨hval, hwf1, ht1, hsp, _, _⟩ :=
+      update_ticking c dt info ht hwf (hnn dt (by simp)) (by rw [hveq]; exact hv)
+    have hs1 : SteadySpeed (c.update dt info).1 v := by
       unfold SteadySpeed; rw [hsp]; exact ⟨hsu.1, hveq⟩
-    obtain ⟨c2, hr, hval2, hwf2, ht2, hs2⟩ :=
-      ih c1 ht1 hwf1 hs1 (fun x hx => hnn x (by simp [hx])) (fun x hx => hfuel x (by simp [hx]))
-    refine ⟨c2, ?_, ?_, hwf2, ht2, hs2⟩
-    · simp only [run, hu]; exact hr
-    · rw [hval2, hval, hveq, List.sum_cons]; ring
+    obtain ⟨hval2, hwf2, ht2, hs2⟩ :=
+      ih (c.update dt info).1 ht1 hwf1 hs1 (fun x hx => hnn x (by simp [hx]))
+    refine ⟨?_, hwf2, ht2, hs2⟩
+    simp only [run]
+    rw [hval2, hval, hveq, List.sum_cons]; ring
 
 /-- a run of updates of a clock that is not ticking changes nothing but the speed parameter -/
-theorem run_not_ticking (fuel : ℕ) (info : Info ℝ) :
+theorem run_not_ticking (info : Info ℝ) :
     ∀ (dts : List ℝ) (c : Clock ℝ), c.ticking = false →
-      ∃ c', c.run fuel info dts = some c' ∧ c'.state = c.state ∧ c'.ticking = false
-        ∧ c'.shared = c.shared ∧ c'.cmds = c.cmds := by
+      (c.run info dts).state = c.state ∧ (c.run info dts).ticking = false
+        ∧ (c.run info dts).shared = c.shared ∧ (c.run info dts).cmds = c.cmds := by
   intro dts
   induction dts with
-  | nil => intro c h; exact ⟨c, rfl, rfl, h, rfl, rfl⟩
+  | nil => intro c h; exact ⟨rfl, h, rfl, rfl⟩
   | cons dt rest ih =>
     intro c h
-    obtain ⟨c2, hr, h1, h2, h3, h4⟩ := ih { c with speed := (c.speed.update twCs dt info).1 } h
-    exact ⟨c2, by simp only [run, update_not_ticking fuel c dt info h]; exact hr, h1, h2, h3, h4⟩
+    obtain ⟨h1, h2, h3, h4⟩ := ih { c with speed := (c.speed.update twCs dt info).1 } h
+    simp only [run, update_not_ticking c dt info h]
+    exact ⟨h1, h2, h3, h4⟩
 
 /-- over a run the speed parameter follows `Parameter.run` on the same steps (C06's time base is
     the clock's own update) -/
-theorem run_speed (fuel : ℕ) (info : Info ℝ) :
-    ∀ (dts : List ℝ) (c c' : Clock ℝ), c.run fuel info dts = some c' →
-      c'.speed = (c.speed.run twCs info dts).1 := by
+theorem run_speed (info : Info ℝ) :
+    ∀ (dts : List ℝ) (c : Clock ℝ), (c.run info dts).speed = (c.speed.run twCs info dts).1 := by
   intro dts
   induction dts with
-  | nil => intro c c' h; simp only [run, Option.some.injEq] at h; subst h; rfl
+  | nil => intro c; rfl
   | cons dt rest ih =>
-    intro c c' h
-    simp only [run] at h
-    cases hu : c.update fuel dt info with
-    | none => rw [hu] at h; exact absurd h (by simp)
-    | some p =>
-      obtain ⟨c1, r⟩ := p
-      rw [hu] at h
-      have := ih c1 c' h
-      rw [this, (update_frame fuel c c1 dt info r hu).1]
-      rfl
+    intro c
+    simp only [run]
+    rw [ih (c.update dt info).1, (update_frame c dt info).1]
+    rfl
 
 end Clock
 end K
